@@ -2,6 +2,7 @@ package sim
 
 import (
 	"fmt"
+	"github.com/itchio/wharf/pwr/bowl"
 	"path/filepath"
 	"testing"
 
@@ -94,7 +95,22 @@ func TestC01(t *testing.T) {
 			Ev.Fault("short_read_source_pool", srcSlice.Cuts)
 		}
 
-		ar := ApplyFresh(dr.Patch, oldDir, outDir, ApplyOpts{PatchSlice: patchSlice, PoolSlice: poolSlice})
+		// sometimes the Close of one of the entry writers fails (the disk reports an error when the
+		// file is closed): the application must not report success then
+		var fcb *FailCloseBowl
+		var wrap func(bowl.Bowl) bowl.Bowl
+		if rapid.IntRange(0, 5).Draw(rt, "closefails") == 0 {
+			fcb = &FailCloseBowl{N: rapid.IntRange(1, 4).Draw(rt, "closefailswhich")}
+			wrap = func(b bowl.Bowl) bowl.Bowl { fcb.Bowl = b; return fcb }
+		}
+		ar := ApplyFresh(dr.Patch, oldDir, outDir, ApplyOpts{PatchSlice: patchSlice, PoolSlice: poolSlice, WrapBowl: wrap})
+		if fcb != nil && fcb.Fired {
+			Ev.Fault("entry_writer_close_error", 1)
+			if ar.Panic == "" && ar.Err == nil {
+				Violation(rt, "C01/close-error-swallowed", "the Close of entry writer #%d failed, yet the application (and Commit) returned nil (comp %s)", fcb.N, CompString(comp))
+			}
+			return
+		}
 		if patchSlice != nil {
 			Ev.Fault("short_read_patch_source", patchSlice.Cuts)
 		}
